@@ -149,24 +149,26 @@ class NonTermination(Exception):
 
 
 class TraceNetwork(ChargingNetwork):
-    """ChargingNetwork using the designed override point post_charging_update (called once per
-    simulated period, after charging) to snapshot the occupant of every station and to enforce
-    a step bound, so that a non-terminating run becomes an exception instead of a hang."""
+    """ChargingNetwork that records, at the one call every simulated period must make to deliver
+    current (update_pilots), who occupies every station and which pilot each EVSE ends up with,
+    keyed by the period index; a step bound turns a non-terminating run into an exception."""
 
     step_bound = None
 
     def __init__(self, *a, **k):
         super().__init__(*a, **k)
-        self.trace = []
-        self.pilot_trace = []
+        self.trace = {}
+        self.pilot_trace = {}
         self.evse_objs = {}
+        self.updates = 0
 
-    def post_charging_update(self):
-        super().post_charging_update()
-        self.trace.append({sid: (self.get_ev(sid).session_id if self.get_ev(sid) is not None else None) for sid in self.station_ids})
-        self.pilot_trace.append({sid: self.evse_objs[sid].current_pilot for sid in self.station_ids})
-        if self.step_bound is not None and len(self.trace) > self.step_bound:
+    def update_pilots(self, pilots, i, period):
+        self.updates += 1
+        if self.step_bound is not None and self.updates > self.step_bound:
             raise NonTermination("more than %d periods simulated" % self.step_bound)
+        self.trace[i] = {sid: (self.get_ev(sid).session_id if self.get_ev(sid) is not None else None) for sid in self.station_ids}
+        super().update_pilots(pilots, i, period)
+        self.pilot_trace[i] = {sid: self.evse_objs[sid].current_pilot for sid in self.station_ids}
 
 
 # ----------------------------------------------------------------------------- schedulers
